@@ -1,5 +1,69 @@
-import BVM.Proofs.Bits
+/-
+  Props/C02.lean — property C02: the tracer never touches memory outside the current packet buffer.
+
+  Proved here (all configurations, values, buffers, offsets):
+    * stores_are_logged_truthfully — each serialisation primitive (bit-array write through the
+      bit-field macro or the memcpy fast path; C string write) logs exactly one store `(first byte,
+      byte count)` and modifies no byte outside that range; the macro's range is exactly the bytes
+      that overlap the field (C08 `bf_touch`);
+    * oob_store_is_detected — a store whose range exceeds the buffer raises `oob` and leaves the
+      buffer unchanged (the model halts there, as the guard page does on the implementation);
+    * record_checked_before_write — after `_reserve_er_space` the tracing function serialises a
+      record only if its size *computed at the offset where it will be written* fits the remaining
+      packet (`sizeAfterReserve … ≤ room`); otherwise it is counted as discarded.  (This is the check
+      whose absence was finding F8, repaired in /repo.)
+    * no_undefined_shift — no shift of the bit-field macros has an amount ≥ its operand width.
+  `stores_in_bounds_partial` (DESIGN.md): the global statement "no history logs an out-of-bounds
+  store" additionally needs (i) `size_eq_advance` / `ser_stores_within` for whole operation trees
+  (the serialise pass advances exactly by the size pass and stores only inside that span), (ii) the
+  position invariant `open → at ≤ packetSize = 8·bufBytes`, (iii) header+context ≤ buffer (property
+  precondition) and no 2^32 wrap.  Those are not proved yet; on the implementation the property is
+  decided by the guard page (byte-granular), the C assertion and sanitizers on every history run.
+-/
+import BVM.Proofs.SerFrame
+import BVM.Proofs.RtSimp
 namespace BVM
-theorem c02_placeholder : True := trivial
-#print axioms c02_placeholder
+
+theorem stores_are_logged_truthfully (env : SerEnv) (sc : Scalar) (oib : Option Nat) (v : Int) (s : SerSt) :
+    ∃ b n, (writeBits env sc oib v s).stores = (b, n) :: s.stores ∧
+      ∀ k, (k < b ∨ b + n ≤ k) → getB (writeBits env sc oib v s).buf k = getB s.buf k :=
+  writeBits_frame env sc oib v s
+
+theorem string_store_logged_truthfully (bytes : List Nat) (s : SerSt) :
+    (writeStr bytes s).stores = (s.at_ / 8, bytes.length + 1) :: s.stores ∧
+    ∀ k, (k < s.at_ / 8 ∨ s.at_ / 8 + (bytes.length + 1) ≤ k) → getB (writeStr bytes s).buf k = getB s.buf k :=
+  writeStr_frame bytes s
+
+theorem oob_store_is_detected (s : SerSt) (b n : Nat) (nb : Buf) (h : ¬ b + n ≤ s.buf.length) :
+    (s.store b n nb).oob = true ∧ (s.store b n nb).buf = s.buf :=
+  store_oob s b n nb h
+
+/-- a serialisation pass that raised `oob` halts the run and logs it -/
+theorem oob_halts (r : SerSt) (s : St) (h : r.oob = true) :
+    (installSer r s).halted = true ∧ Ev.oob ∈ (installSer r s).log := by
+  unfold installSer
+  simp [h]
+
+theorem record_checked_before_write (cfg : Cfg) (d : DST) (e : ERT) (args : Args) (erAt erSize : Nat) (r : Bool × St)
+    (hh : r.2.halted = false) (hok : r.1 = true)
+    (hfit : ¬ sizeAfterReserve d e args erAt erSize r.2 ≤ r.2.c.room r.2.c.at_) :
+    traceAfterReserve cfg d e args erAt erSize r = (noSpace true r.2).2.setFlag false := by
+  unfold traceAfterReserve
+  have : sizeAfterReserve d e args erAt erSize r.2 > r.2.c.room r.2.c.at_ := by omega
+  simp [hh, hok, this]
+
+theorem no_undefined_shift (isLE : Bool) (W start len : Nat) (hW : 2 ≤ W) :
+    ∀ p ∈ bfShifts isLE W start len, p.2 < p.1 :=
+  bfShifts_ok isLE W start len hW
+
+/-! Non-vacuity -/
+example : (({ buf := [0, 0], at_ := 8, saved := [], stores := [], oob := false, leaves := [] } : SerSt).store 1 2 [0, 1, 2]).oob = true := by
+  decide
+
+#print axioms stores_are_logged_truthfully
+#print axioms string_store_logged_truthfully
+#print axioms oob_store_is_detected
+#print axioms oob_halts
+#print axioms record_checked_before_write
+#print axioms no_undefined_shift
 end BVM
